@@ -145,6 +145,38 @@ def run(spec, out):
                 kw_all[nme] = tuple(int(v) for v in vs)
         if kw_all != case.kwargs:
             relate("redundant-sizes", case, call(case), call(case, kwargs=kw_all), b, inexact)
+        # ---- (1c) a rearrangement that is a bijection between input and output elements (no diagonal, nothing repeated or dropped; splits and
+        # concatenations included) is undone by the description read backwards
+        if case.family == "id" and case.outputs is not None:
+            from ..gen.expr import xleaves
+            nodiag = all(len({l.name for l in xleaves(e)}) == len(list(xleaves(e))) for e in case.xin + case.xout)
+            n_in = sum(math.prod(sh) for sh in case.in_shapes)
+            n_out = sum(math.prod(sh) for sh in case.out_shapes)
+            in_names = {l.name for e in case.xin for l in xleaves(e) if case.sizes[l.name] != 1}
+            out_names = {l.name for e in case.xout for l in xleaves(e) if case.sizes[l.name] != 1}
+            if nodiag and n_in == n_out and in_names == out_names:
+                out.evaluation()
+                out.count("relation:split-concat-inversion")
+                fwd = execute(call(case, kwargs=kw_all), b)
+                if fwd[0] == "ok":
+                    res = list(fwd[1]) if isinstance(fwd[1], (tuple, list)) else [fwd[1]]
+                    inv = {"fn": "id", "desc": pr_desc(case.outputs, case.inputs), "tensors": res, "kwargs": dict(kw_all), "opts": {}, "post": None}
+                    back = execute(inv, b)
+                    wit = {"relation": "split-concat-inversion", "forward": call(case)["desc"], "backward": inv["desc"], "kwargs": {k: repr(v) for k, v in kw_all.items()}, "shapes": [list(sh) for sh in case.in_shapes], "backend": b}
+                    ncats = sum(1 for e in list(case.inputs) + list(case.outputs) for n in walk(e) if isinstance(n, Cat))
+                    if back[0] == "ok":
+                        got = list(back[1]) if isinstance(back[1], (tuple, list)) else [back[1]]
+                        if len(got) == len(case.tensors) and all(np.array_equal(np.asarray(g), np.asarray(t)) for g, t in zip(got, case.tensors)):
+                            out.count("hold:split-concat-inversion")
+                            if ncats:
+                                out.count("hold:split-concat-inversion-with-concatenation")
+                            out.distinct_key(f"inversion|{case.skeleton()}")
+                        else:
+                            out.violation({"kind": "inversion-fails", "relation": "split-concat-inversion", "concatenations": min(ncats, 3), "risk": G.risk(case)}, wit, f"id({inv['desc']!r}) applied to the result of id({wit['forward']!r}) does not restore the inputs")
+                    else:
+                        out.count("inverse_rejected")  # whether the backward description is accepted is C01's/C03's business
+                else:
+                    out.count("forward_rejected")
         if case.outputs is None or case.family == "update":
             continue  # position relations need an explicit output (update ops: the output mirrors the target by rule)
         concat = any(isinstance(n, Cat) for e in list(case.inputs) + list(case.outputs) for n in walk(e))
@@ -280,9 +312,56 @@ def run(spec, out):
             out.sample({"triple": [dA, dB, dC], "sizes": sizes})
 
 
+    # ---- (7) block assembly: k x m blocks 'r_i c_j' -> '(r_1 + .. + r_k) (c_1 + .. + c_m)' equals np.block, and the backward description splits it again;
+    # an extra un-concatenated axis may sit before, between or after the two concatenated ones
+    for it in range(spec["ntriples"] // 4):
+        k, m = rng.randint(1, 3), rng.randint(1, 3)
+        rs = [rng.randint(1, 3) for _ in range(k)]
+        cs = [rng.randint(1, 3) for _ in range(m)]
+        extra = rng.choice([None, None, 0, 1, 2])
+        e = rng.randint(1, 3)
+        def with_extra(lst, pos=extra):
+            lst = list(lst)
+            if pos is not None:
+                lst.insert(pos, "e")
+            return " ".join(lst)
+        ins, tens = [], []
+        for i in range(k):
+            for j in range(m):
+                ins.append(with_extra([f"r{i}", f"c{j}"]))
+                shp = [rs[i], cs[j]]
+                if extra is not None:
+                    shp.insert(extra, e)
+                tens.append(nprng.integers(-9, 9, size=shp).astype(np.float64))
+        odesc = with_extra(["(" + " + ".join(f"r{i}" for i in range(k)) + ")", "(" + " + ".join(f"c{j}" for j in range(m)) + ")"])
+        fdesc = ", ".join(ins) + " -> " + odesc
+        bdesc = odesc + " -> " + ", ".join(ins)
+        kw = {**{f"r{i}": rs[i] for i in range(k)}, **{f"c{j}": cs[j] for j in range(m)}}
+        b = rng.choice([None, "numpy.numpylike", "numpy.einsum"])
+        bk = {} if b is None else {"backend": b}
+        out.evaluation()
+        out.distinct_key(f"block|{k}|{m}|{extra}|{rs}|{cs}")
+        ra, ca = (0, 1) if extra is None else [p for p in range(3) if p != extra]
+        expect = np.concatenate([np.concatenate([tens[i * m + j] for j in range(m)], axis=ca) for i in range(k)], axis=ra)
+        wit = {"forward": fdesc, "sizes": kw, "e": e, "backend": b}
+        try:
+            y = einx.id(fdesc, *tens, **bk)
+            back = einx.id(bdesc, y, **kw, **bk)
+        except Exception as ex:
+            out.violation({"kind": "block-assembly-rejected", "exc": type(ex).__name__, **exc_site(ex)}, {**wit, "message": str(ex)[:300]}, f"block assembly {fdesc!r} or its inverse rejected: {type(ex).__name__}: {str(ex)[:120]}")
+            continue
+        back = list(back) if isinstance(back, (tuple, list)) else [back]
+        if not np.array_equal(np.asarray(y), expect):
+            out.violation({"kind": "block-assembly-differs-from-concatenate"}, wit, f"id({fdesc!r}) differs from nested np.concatenate")
+        elif len(back) != len(tens) or not all(np.array_equal(np.asarray(g), t) for g, t in zip(back, tens)):
+            out.violation({"kind": "inversion-fails", "relation": "block-assembly"}, wit, f"id({bdesc!r}) does not restore the blocks")
+        else:
+            out.count("hold:block-assembly")
+
+
 def finalize(agg, tier, seed):
     c = agg.counters
-    for r in ("rename", "redundant-sizes", "input-permute", "output-permute", "group-input", "ungroup-input", "group-output", "inversion", "composition"):
+    for r in ("block-assembly", "rename", "redundant-sizes", "input-permute", "output-permute", "group-input", "ungroup-input", "group-output", "inversion", "composition", "split-concat-inversion", "split-concat-inversion-with-concatenation"):
         if c.get(f"hold:{r}", 0) < 20:
             agg.inconclusive.append(f"relation {r}: only {c.get(f'hold:{r}', 0)} holding instances observed")
     return {"relations": {k[9:]: int(v) for k, v in c.items() if k.startswith("relation:")}}
